@@ -1817,7 +1817,7 @@ class OperatorRightScalarMult(Operator):
         follows the chain rule:
 
             ``OperatorRightScalarMult(op, s).derivative(y) ==
-            OperatorLeftScalarMult(op.derivative(s * y), s)``
+            OperatorRightScalarMult(op.derivative(s * y), s)``
 
         Parameters
         ----------
@@ -1833,7 +1833,10 @@ class OperatorRightScalarMult(Operator):
         >>> derivative([1, 1, 1])
         rn(3).element([ 3.,  3.,  3.])
         """
-        return self.scalar * self.operator.derivative(self.scalar * x)
+        # The inner derivative may be linear over the reals only (complex
+        # domain), hence the scalar must stay on the argument side.
+        return OperatorRightScalarMult(
+            self.operator.derivative(self.scalar * x), self.scalar)
 
     @property
     def adjoint(self):
